@@ -78,6 +78,17 @@ def r1_typestate(ctx, repo, cls):
     if not wl:
         ctx.inconclusive("R1", construct, where(mod, cls.node), "no work list found in add()")
         return
+    # the work lists are different lists: binding one of them to another (self.a = self.b = []) makes every later add()
+    # fill both at once
+    for meth in cls.methods.values():
+        for s_ in stmts_of(meth):
+            if isinstance(s_, ast.Assign) and len(s_.targets) == 1 and access_path(s_.targets[0]) in wl and access_path(s_.value) in wl \
+                    and access_path(s_.value) != access_path(s_.targets[0]):
+                ctx.violated("R1", construct, where(mod, s_),
+                             "work list %s is bound to the list object of %s (%s): from then on add() fills both with every design and every neighbour, so designs are "
+                             "post-processed twice and neighbours are treated as designs" % (access_path(s_.targets[0]), access_path(s_.value), text(s_).strip()),
+                             key="worklist-reset", facts={"worklist": access_path(s_.targets[0])})
+                return
     paths = Enumerator(loop_counts=(0, 1, 2)).function_paths(run)
     ctx.count("paths_enumerated", len(paths))
     bad = None
